@@ -1055,6 +1055,8 @@ class Catchment(object):
            and other._idxcells_area is not None:
             catchment._idxcells_area = np.union1d(self.idxcells_area_filled,
                                                   other.idxcells_area_filled)
+            # .. the filled area is this union too (not the one of self)
+            catchment._idxcells_area_filled = catchment._idxcells_area.copy()
         return catchment
 
     def __sub__(self, other):
